@@ -1,68 +1,29 @@
 """Per-property configuration of the orchestrator (bin/check).
 
+One JSON file per property in tools/props.d/<id>.json (so that branches never conflict):
+
 groups      harness generator groups whose cases decide the property (qvh gen <group> …)
 module      Lean module holding the property's theorems (QV.Properties.<id> by default)
 features    cargo features of /repo the harness needs for this property
 strict_err  compare error *variants* between implementation and model for the verdict
             (only where the property names the error; otherwise informational)
 design_ref  DESIGN.md section
+technique, level_text, level_note, assumptions, evidence_notes   free text for MANIFEST/evidence
 """
+import glob
+import json
+import os
 
-PROPS = {
-    "C26": {
-        "groups": ["rrl"],
-        "features": ["verif_hooks"],
-        "design_ref": "§6 C26–C28",
-        "technique": "Lean 4 proof: process_response (explicit time, explicit RandomState) refines an eager token bucket per stream for every time-stamped history and all valid configurations (invariant count+tokens=cap, last_refill=t₀+m·1s); u64/u32 refill arithmetic = ℕ for all gaps; slip 0/1 and the shape of a slipped response; model tied to src/server/rrl.rs by whole-history correspondence through Server::handle_message with the verif_hooks time shift and bucket probe",
-        "assumptions": [
-            "C26: hash-table hypotheses of the history theorems are explicit: NoBucketCollision (documented: a colliding entry is forgotten), NoInitialKey (a response whose key equals the dummy key the table is initialised with), HashInjectiveOn (the key stores a 32-bit hash of the QNAME); histories outside them are still compared with the model (which takes bucket index and hash as recorded inputs) but not with the spec",
-            "C26: time is the monotonic clock read under the bucket lock; the correspondence run moves time only by the whole-second hook and keeps each history below 0.4 s of real time (longer ones are discarded and counted: op rrl-discarded-<n>)",
-            "C26: what the handler produced before RRL (response or none, extended RCODE, OPT, wildcard source of synthesis) is a recorded input taken from a second Server without rate limiting",
-        ],
-        "evidence_notes": [
-            "outcome_histogram key `rrl-discarded-<n> ok` = number of histories thrown away because the real clock advanced more than 0.4 s during the history (timing can therefore never flip a decision)",
-            "generators: gaps 0..10^9 s, boundary gaps 2^32/rate ± 1, 2^32 ± 1, > 2^33; rates 1..10^6 and 42 949 672/3; windows 1..100; slips 0/1/2/5; table sizes 1, 2, 3, 17, 1009, 65537 (tiny ones force bucket collisions: model only); fixed regression histories for D10 first",
-        ],
-    },
-    "C27": {
-        "groups": ["rrlkey"],
-        "features": ["verif_hooks"],
-        "design_ref": "§6 C26–C28",
-        "technique": "Lean 4 proof: key equality ↔ (family after IPv4-mapped canonicalisation, masked destination, category, QNAME hash for NOERROR only); masked equality ↔ first len bits agree for every prefix length 0..32 / 0..64 (BitVec proof, not a sample); with HashInjectiveOn: same key ↔ SameStream of the spec; TCP / non-QUERY / unanswered requests never touch the table; decisions follow streams (C26_history); correspondence: request pairs and triples under a limit of one response per stream",
-        "assumptions": [
-            "C27: `exactly when` needs HashInjectiveOn for the names involved (the table stores a 32-bit hash); same stream ⇒ same key is unconditional (C27_same_stream_same_key)",
-            "C27: the RCODE and the wildcard source of synthesis of a response are recorded inputs (they are outputs of query processing, C05/C06)",
-        ],
-        "evidence_notes": [
-            "generators: sources IPv4 / IPv6 / IPv4-mapped / ::a.b.c.d, second source with one bit flipped at positions len-2..len+1, 0, 31 (63, 64, 127 for IPv6); prefix lengths incl. 0, 1, 31, 32, 63, 64 and random; QNAME case variants, wildcard siblings, the wildcard itself; NOERROR/NXDOMAIN/REFUSED/SERVFAIL/NOTIMP/FORMERR/BADVERS; TCP; opcodes 1,2,4,5,6,15; QDCOUNT=2 and QR=1 (no response)",
-        ],
-    },
-    "C28": {
-        "groups": ["rrlburst"],
-        "features": ["verif_hooks"],
-        "design_ref": "§6 C26–C28",
-        "technique": "Lean 4 proof over a transition system (n threads × lock/read/write/unlock on the shared entry, body = the model's critical section): for every interleaving exactly min(n, cap−used) responses are sent, the counter ends at min(used+n, cap), all n accounted for; holds in every reachable state; mutual exclusion and deadlock freedom are invariants; a split-lock variant is refuted in the same system. Stress op: 1–16 OS threads behind a barrier on one stream within < 0.5 s, counts compared with model and spec",
-        "level_text": "Theorems about a Lean 4 transition-system model of the locking discipline in Rrl::process_response, for all interleavings of the modelled steps and any number of threads. PARTIAL with respect to the real runtime: mutual exclusion and memory ordering of std::sync::Mutex, OS preemption granularity and the absence of thread death inside the critical section are assumed, and only exercised by a multi-threaded stress run (counts compared), not proved.",
-        "assumptions": [
-            "C28: std::sync::Mutex provides mutual exclusion and makes the previous holder's writes visible; threads are preempted only in ways equivalent to an interleaving of the modelled lock/read/write/unlock steps; no panic inside the critical section (C26_never_panics) so no poisoning",
-            "C28: `within one second` = all clock readings of the burst lie within one second of each other and of the bucket's last refill (hypothesis WithinOneSecond/Good); the stress op enforces it by discarding bursts whose wall-clock time exceeds 0.5 s",
-            "C28: the stress run samples schedules chosen by the OS; it does not enumerate them",
-        ],
-        "evidence_notes": [
-            "burst <rates> <window> <slip> <size> <pre> <threads> <per> <yield>: result = counts only (sent, slipped, dropped)",
-        ],
-    },
-    "C14": {
-        "groups": ["wire"],
-        "design_ref": "§6 C14",
-        "technique": "Lean 4 proof: parser ↔ inductive RFC 1035 §4.1.4 relation (sound+complete, no panic, termination); model tied to src/name/wire.rs by differential correspondence incl. exhaustive ≤5-octet buffers",
-    },
-}
+_HERE = os.path.dirname(os.path.abspath(__file__))
+PROPS = {}
+for _p in sorted(glob.glob(os.path.join(_HERE, "props.d", "C*.json"))):
+    with open(_p, encoding="utf-8") as _f:
+        PROPS[os.path.basename(_p)[:-5]] = json.load(_f)
 
 TRUSTED_BASE = [
     "Lean 4.33.0 kernel (leanchecker re-check in the thorough tier)",
     "axioms allowed: propext, Classical.choice, Quot.sound (audited per theorem with #print axioms); no sorry/admit/native_decide/bv_decide/own axioms",
     "QV/Spec/*: that the specification says what the property says (DESIGN.md §6 records every interpretation)",
     "correspondence check (harness/ + Lean driver + canonicaliser): differential testing that the hand-written model mirrors /repo's current source; the extractor (tools/extract.py) ties constants and tables",
-    "rustc/cargo dev profile (overflow checks on); std, arrayvec, hashbrown, hmac/sha crates as used by quandary",
+    "rustc/cargo dev profile (overflow checks on); std, arrayvec, hashbrown, hmac/sha crates as used by quandary"
 ]
